@@ -68,6 +68,9 @@
      C07_nine_setters_partial, C07_nine_histories, C07_nine_all, C07_statement_nine_all
                               nine setters (the eight and host): one step, all histories, from every parsed start URL,
                               and in the shape of C07_statement
+     C07_host_fns_real, C07_host_fns_special_empty_string
+                              the per-string host hypothesis for the REAL host functions under IdnaOK on (non-empty)
+                              scalar-value strings; on the empty string it does not follow from IdnaOK (witness)
    The gap: the pathname setter, host / hostname on file URLs (class 4 of Known_C07 covers them all), inputs and href
    values whose scheme is "file", href values whose URL exceeds u32::MAX bytes, and host_parse_ok in place of
    hosts_agree.
@@ -85,7 +88,8 @@ From RU Require Import Base.Prelude Base.Utf8 Model.AsciiSet Gen.Tables Model.Pe
   Proofs.C07_EqAuthParse Proofs.C07_EqAuthHost
   Proofs.C07_SpecHost Proofs.C07_EqHostname Proofs.C07_EqSeven
   Proofs.C02_AuthParts Proofs.C03_ReachParts Proofs.C01_EqRef Proofs.C07_EqRel Proofs.C07_SpecInv Proofs.C07_ParseExtra Proofs.C07_EqParseAll
-  Proofs.C07_SpecHost2 Proofs.C07_EqHostNoPort Proofs.C07_SpecHostPort Proofs.C07_EqHostPort Proofs.C07_EqNine.
+  Proofs.C07_SpecHost2 Proofs.C07_EqHostNoPort Proofs.C07_SpecHostPort Proofs.C07_EqHostPort Proofs.C07_EqNine
+  Proofs.C06_Host Proofs.C09_Host Proofs.C16_RT6Model Proofs.C07_HostReal.
 
 (* ---------- the statement ---------- *)
 
@@ -1248,6 +1252,54 @@ Proof.
     split; [repeat constructor; vm_compute; auto | exact I].
   - eexists. split; [vm_compute; reflexivity|]. split; [vm_compute; repeat split|]. split; vm_compute; reflexivity.
 Qed.
+
+(* ---------- the host hypothesis for the real host functions ---------- *)
+
+(* host_fn_ok (the per-string content of host_fns_ok / host_parse_ok: same success, same text, host_disp_ok, empty host
+   <-> SEmpty <-> empty string) holds for the REAL host functions - Host::parse with a domain-to-ASCII oracle,
+   Host::parse_opaque, Display - against the Standard's host parser with the same oracle and the Standard's host
+   serializer under IdnaOK: for Host::parse_opaque on every scalar-value string, for Host::parse on every NON-EMPTY
+   scalar-value string.  GAP to a C07_statement relative to IdnaOK only: host_fns_ok quantifies over all strings; the
+   restriction to (non-empty) scalar-value strings - all the setters and the parser ever hand to the host functions - is
+   not yet carried through the equivalence proofs. *)
+Theorem C07_host_fns_real : forall idna, IdnaOK idna -> forall s, usv_list s ->
+  host_fn_ok_at host_parse_opaque host_display (spec_host_parser idna) spec_host_serializer true s
+  /\ (s <> [] -> host_fn_ok_at (host_parse idna) host_display (spec_host_parser idna) spec_host_serializer false s).
+Proof. intros idna OK s Hu. exact (conj (host_fn_real_opaque idna OK s Hu) (host_fn_real_special idna OK s Hu)). Qed.
+Check C07_host_fns_real : forall idna, IdnaOK idna -> forall s, usv_list s ->
+  match host_parse_opaque s, host_parsing (spec_host_parser idna) true s with
+  | Ok h, Some sh => host_display h = spec_host_serializer sh /\ host_disp_ok host_display h
+                     /\ (h = HDomain [] <-> sh = SEmpty) /\ (h = HDomain [] <-> s = [])
+  | Err _, None => True
+  | _, _ => False
+  end
+  /\ (s <> [] ->
+      match host_parse idna s, host_parsing (spec_host_parser idna) false s with
+      | Ok h, Some sh => host_display h = spec_host_serializer sh /\ host_disp_ok host_display h
+                         /\ (h = HDomain [] <-> sh = SEmpty) /\ (h = HDomain [] <-> s = [])
+      | Err _, None => True
+      | _, _ => False
+      end).
+Print Assumptions C07_host_fns_real.
+
+(* host_fn_ok is exactly this for every string *)
+Theorem C07_host_fn_ok_pointwise : forall hf hd shp shs o,
+  host_fn_ok hf hd shp shs o <-> forall s, host_fn_ok_at hf hd shp shs o s.
+Proof. exact host_fn_ok_pointwise. Qed.
+Print Assumptions C07_host_fn_ok_pointwise.
+
+(* the hypotheses can be met: the oracle idna_clean (C09), the string "x.y" *)
+Example C07_host_fns_real_inhabited : IdnaOK idna_clean /\ usv_list (str "x.y") /\ str "x.y" <> [].
+Proof. split; [exact idna_clean_ok|]. split; [repeat constructor; vm_compute; auto | discriminate]. Qed.
+
+(* the restriction to non-empty strings is needed for Host::parse: on the empty string the answer depends on what the
+   oracle says about the empty string, which IdnaOK does not fix - an oracle with idna "" = "a" makes Host::parse("")
+   succeed with the domain "a" (url::quirks never hands the empty string to Host::parse: a special URL with an empty
+   host text is refused before) *)
+Theorem C07_host_fns_special_empty_string : forall idna, idna [] = Some [97] ->
+  ~ host_fn_ok (host_parse idna) host_display (spec_host_parser idna) spec_host_serializer false.
+Proof. exact host_fn_ok_special_empty_string. Qed.
+Print Assumptions C07_host_fns_special_empty_string.
 
 (* ---------- clauses of the Standard's setters, for all records and values ---------- *)
 
